@@ -172,6 +172,13 @@ func (o Options) Clone() Options {
 	oo := o
 	if o.TLSClientConfig != nil {
 		oo.TLSClientConfig = o.TLSClientConfig.Clone()
+		// tls.Config.Clone is shallow, but SetCerts / SetCertFromFile append to
+		// Certificates and SetRootCertFromString / SetRootCertsFromFile add to
+		// RootCAs in place: give the copy its own slice and pool.
+		oo.TLSClientConfig.Certificates = append([]tls.Certificate(nil), o.TLSClientConfig.Certificates...)
+		if o.TLSClientConfig.RootCAs != nil {
+			oo.TLSClientConfig.RootCAs = o.TLSClientConfig.RootCAs.Clone()
+		}
 	}
 	if o.Dump != nil {
 		oo.Dump = o.Dump.Clone()
